@@ -6,10 +6,10 @@
                  590 < t <= 800,    0 <= p <= 100 MPa
       region 3:  350 <= t <= 590,   pB23(t) <= p <= 100 MPa
     The decision logic is proved for ARBITRARY coefficient values: psat and pB23 are whatever the
-    traced [sat] and [b23p] compute from them (SatInv.sat_val, B23.b23p_val). *)
+    traced [sat] and [b23p] compute from them (Formulas.sat_val, Formulas.b23p_val; SatInv.v, B23.v). *)
 From Coq Require Import ZArith QArith Qreals Reals List Bool Lra.
 From Gen Require Import GenIAPWS GenTraced.
-From P Require Import Expr RunR SatInv B23.
+From P Require Import Expr RunR Formulas.
 Import ListNotations.
 Close Scope Q_scope.
 Open Scope R_scope.
